@@ -194,7 +194,9 @@ def check(config, events, live=None, nticks=None, identity=True):
                             want = None
                             for a in [x for x in config["rulesets"][ri]["actions"] if x["args"]["id"] == e["id"]]:
                                 want = a["args"].get("cgroup", cg)
-                            if e["args"].get("cgroup") != want:
+                            # the default is handed over as a pattern: glob metacharacters of the name may arrive escaped
+                            esc = "".join(("\\" + ch) if ch in "\\*?[]{}" else ch for ch in want) if want == cg else want
+                            if e["args"].get("cgroup") not in (want, esc):
                                 bad("C11", "action-target", "", "ruleset %s cg %s: action %s initialised with cgroup=%r, expected %r" % (r.name, cg, e["id"], e["args"].get("cgroup"), want), st)
                 if st.dead:
                     continue
